@@ -751,6 +751,8 @@ func cmdCheck(args []string) int {
 			"known_finding_hits":    knownHits,
 			"determinism_rechecked": tot.DetChecked,
 			"build":                 *mode,
+			"runs_planned":          bud.runs + raceRuns,
+			"stopped_early_by_wall_cap": tot.Runs < bud.runs,
 			"race_detector_runs":    raceRuns,
 			"components_real":       []string{"every line of the library (built from /repo's working tree with -tags verif)", "Go runtime, collector (fired as a step)", "mmap/mprotect"},
 			"components_stub":       []string{"io.Writer/io.Reader (simio)", "caller-owned buffers (simio regions)", "goroutine choice, select choice, sync.Pool recycling, NumCPU (simrt, in instrumented builds)"},
@@ -762,6 +764,9 @@ func cmdCheck(args []string) int {
 	if err := os.WriteFile(filepath.Join(*verif, "evidence", *prop+".json"), eb, 0o644); err != nil {
 		fmt.Fprintln(os.Stderr, err)
 		return 2
+	}
+	if tot.Runs < bud.runs {
+		fmt.Printf("NOTE: only %d of %d planned runs were executed (wall-clock cap %v or lost workers)\n", tot.Runs, bud.runs, bud.wallCap)
 	}
 	fmt.Printf("done property=%s runs=%d steps=%d states=%d foreign=%d known=%d violations=%d wall=%.1fs\n", *prop, tot.Runs, tot.Steps, len(states), tot.Foreign, knownHits, violations, wall)
 	if violations > 0 {
